@@ -13,6 +13,7 @@
 ##############################################################################
 """Schema loader utility."""
 
+import http.client
 import os.path
 import re
 import sys
@@ -215,6 +216,9 @@ class BaseLoader(ABC):
             except ValueError as e:
                 # urllib reports malformed URLs ("http://[::1", embedded
                 # NUL) as ValueError
+                self._raise_open_error(url, str(e))
+            except http.client.HTTPException as e:
+                # e.g. InvalidURL for "http://host:port-that-is-no-number/"
                 self._raise_open_error(url, str(e))
 
             try:
